@@ -7,7 +7,7 @@ import sys
 import esrv
 
 PROPS_V = "Props/C02.v"
-TRANSLATORS = ["symtab", "nodestr"]
+TRANSLATORS = ["symtab", "nodestr", "ctree"]
 GEN = os.path.join(esrv.VERIF, "harness", "corr", "gen_run.py")
 IMPL = os.path.join(esrv.VERIF, "harness", "corr", "c02_impl.py")
 TRUSTED = [
